@@ -122,19 +122,19 @@ Definition extrema (r : rep) : list vec :=
            [(0, 0); vi; vj; vadd vi vj])
   | RExplX l =>
       match l with
-      | [] => []                                        (* if (coords.count == 0) return; *)
+      | [] => [(0, 0)]                  (* if (coords.count == 0) { append {0,0}; return; } *)
       | _ => let (xmin, xmax) := scan_key (fun x => x) l 0 in
              if negb (Qeq_bool xmin xmax) then [(xmin, 0); (xmax, 0)] else [(xmin, 0)]
       end
   | RExplY l =>
       match l with
-      | [] => []
+      | [] => [(0, 0)]
       | _ => let (ymin, ymax) := scan_key (fun y => y) l 0 in
              if negb (Qeq_bool ymin ymax) then [(0, ymin); (0, ymax)] else [(0, ymin)]
       end
   | RExpl l =>
       match l with
-      | [] => []                                        (* if (offsets.count == 0) return; *)
+      | [] => [(0, 0)]                  (* if (offsets.count == 0) { append {0,0}; return; } *)
       | _ =>
           (* the C++ runs both if/else-if chains in one loop; they touch disjoint variables *)
           let (vxmin, vxmax) := scan_key (fun v : vec => fst v) l vzero in
@@ -218,24 +218,31 @@ Definition transform (r : rep) (m : Q) (xr : bool) (rt : rot) : rep :=
 (* The five routines are the same text up to the element type:
      if (type == None) return;
      get_offsets(offsets); repetition.clear();
+     if (offsets.count == 0) return;          -- zero columns or rows: nothing to copy
      offset_p = offsets.items + 1;
      for (n = offsets.count - 1; n > 0; n--) { copy = copy of this; copy.translate(offset_p[0]); offset_p++; append }
    The copies are taken AFTER the clear, so they carry no repetition.  [offsets.count - 1] is
-   unsigned: with an empty offsets array the loop bound is 2^64 - 1 and the first read
-   through offset_p is outside the (NULL) array. *)
+   unsigned, but after the early return offsets.count >= 1; the model keeps the bound check
+   (reads past the array would be Crash) and the proofs show it is never taken. *)
 Section Apply.
   Context {E : Type}.
   Context (translate : vec -> E -> E).
 
-  Definition apply_repetition (e : E) (r : rep) : outcome (list E * rep) :=
+  (* result: the produced copies, each with the repetition it carries, and the repetition the
+     original is left with *)
+  Definition apply_repetition (e : E) (r : rep) : outcome (list (E * rep) * rep) :=
     match r with
-    | RNone => Ok ([], RNone)
+    | RNone => Ok ([], RNone)                               (* if (type == None) return; *)
     | _ =>
-        let offs := offsets r in
+        let offs := offsets r in                            (* get_offsets(offsets) *)
+        let cleared := RNone in                             (* repetition.clear() *)
+        if (N.of_nat (length offs) =? 0)%N then Ok ([], cleared)   (* if (offsets.count == 0) return; *)
+        else
         let n := wrapZ (Z.of_nat (length offs) - 1) in      (* offsets.count - 1 *)
         let avail := skipn 1 offs in                        (* offsets.items + 1 ... *)
         if (N.of_nat (length avail) <? n)%N then Crash      (* reads past the array *)
-        else Ok (map (fun v => translate v e) (firstn (N.to_nat n) avail), RNone)
+        else Ok (map (fun v => (translate v e, cleared))    (* copy_from(this), translate *)
+                     (firstn (N.to_nat n) avail), cleared)
     end.
 End Apply.
 
@@ -248,7 +255,7 @@ Arguments e_pos {A} _.
 Arguments e_rest {A} _.
 Definition elem_translate {A : Type} (v : vec) (e : elem A) : elem A :=
   mkElem (map (fun p => vadd p v) (e_pos e)) (e_rest e).            (* *p++ += v *)
-Definition apply_elem {A : Type} (e : elem A) (r : rep) : outcome (list (elem A) * rep) :=
+Definition apply_elem {A : Type} (e : elem A) (r : rep) : outcome (list (elem A * rep) * rep) :=
   apply_repetition elem_translate e r.
 
 (* ------------------------------------------------------------------ printing helpers *)
